@@ -36,15 +36,15 @@ checks = {}
 
 checks["C01"] = dict(
     runs=dict(
-        quick=[H("HarnessCrash", crash(2, 1, opset=1), shards=14, depth=10),
-               H("HarnessCrash", crash(1, 1), shards=8, depth=10),
-               H("HarnessCrash", crash(1, 2, opset=1, crashkind=1, usability=0), shards=8, depth=10),
-               H("HarnessCrash", crash(1, 1, armopen=1, opset=1, seg=64), shards=4, depth=10)],
-        thorough=[H("HarnessCrash", crash(2, 1), shards=42, depth=10, timeout="40m"),
-                  H("HarnessCrash", crash(2, 1, seg=64), shards=42, depth=10, timeout="40m"),
-                  H("HarnessCrash", crash(1, 2, armopen=1, opset=3), shards=56, depth=10, timeout="60m"),
-                  H("HarnessCrash", crash(1, 2, opset=3, crashkind=1), shards=42, depth=10, timeout="40m"),
-                  H("HarnessCrash", crash(1, 1, pre=3, seg=64, armopen=1), shards=28, depth=10, timeout="30m")]),
+        quick=[H("HarnessCrash", crash(2, 1, opset=1), shards=14, depth=8),
+               H("HarnessCrash", crash(1, 1), shards=8, depth=8),
+               H("HarnessCrash", crash(1, 2, opset=1, crashkind=1, usability=0), shards=8, depth=8),
+               H("HarnessCrash", crash(1, 1, armopen=1, opset=1, seg=64), shards=4, depth=8)],
+        thorough=[H("HarnessCrash", crash(2, 1), shards=42, depth=8, timeout="40m"),
+                  H("HarnessCrash", crash(2, 1, seg=64), shards=42, depth=8, timeout="40m"),
+                  H("HarnessCrash", crash(1, 2, armopen=1, opset=3), shards=56, depth=8, timeout="60m"),
+                  H("HarnessCrash", crash(1, 2, opset=3, crashkind=1), shards=42, depth=8, timeout="40m"),
+                  H("HarnessCrash", crash(1, 1, pre=3, seg=64, armopen=1), shards=28, depth=8, timeout="30m")]),
     required_reach=["crash-verified", "recovered-pre", "recovered-post", "probe-present"],
     bounds=dict(quick='one power loss at any modifying environment call after: K=2 appends (batches of 1 entry; 2 entries per 100-byte segment so the second seals and rotates); K=1 operation from {append 1, append 2, DeleteRange(min,max 64-bit symbolic)}; a process crash (page cache survives) at any call of a first incarnation followed by one append in a second incarnation and a power loss; a first-ever Open with crash points inside Open plus one append with one entry per segment. Payload 0..1 symbolic bytes, Term<128, start index 1, rotation run or left pending after each call',
                 thorough='K=2 over the full alphabet with 2 and 1 entries per segment; two nested power-loss epochs with crash points inside recovery; process crash + power loss with batches of two; 3 pre-built segments with crash points inside Open'),
@@ -55,13 +55,13 @@ checks["C01"] = dict(
 
 checks["C02"] = dict(
     runs=dict(
-        quick=[H("HarnessCrash", crash(1, 2, opset=1, usability=0), shards=14, depth=10),
-               H("HarnessCrash", crash(2, 1, opset=1), shards=14, depth=10),
-               H("HarnessCrash", crash(1, 1, opset=2), shards=4, depth=10)],
-        thorough=[H("HarnessCrash", crash(2, 1), shards=42, depth=10, timeout="40m"),
-                  H("HarnessCrash", crash(1, 2, opset=1, pre=1, seg=128), shards=28, depth=10, timeout="40m"),
-                  H("HarnessCrash", crash(1, 2, armopen=1, opset=3), shards=56, depth=10, timeout="60m"),
-                  H("HarnessCrash", crash(2, 2, opset=1, usability=0), shards=56, depth=10, timeout="60m")]),
+        quick=[H("HarnessCrash", crash(1, 2, opset=1, usability=0), shards=14, depth=8),
+               H("HarnessCrash", crash(2, 1, opset=1), shards=14, depth=8),
+               H("HarnessCrash", crash(1, 1, opset=2), shards=4, depth=8)],
+        thorough=[H("HarnessCrash", crash(2, 1), shards=42, depth=8, timeout="40m"),
+                  H("HarnessCrash", crash(1, 2, opset=1, pre=1, seg=128), shards=28, depth=8, timeout="40m"),
+                  H("HarnessCrash", crash(1, 2, armopen=1, opset=3), shards=56, depth=8, timeout="60m"),
+                  H("HarnessCrash", crash(2, 2, opset=1, usability=0), shards=56, depth=8, timeout="60m")]),
     required_reach=["crash-verified", "recovered-pre", "recovered-post"],
     bounds=dict(quick='chains: two power-loss epochs with one append each (stale bytes of the first torn batch stay in the preallocated file); K=2 appends then a power loss; one batch of two entries (half-applied recovery would show as one of them)',
                 thorough='K=2 over the full alphabet; chains on a tail that already holds a commit (pre=1, 3 entries per segment); crash points inside Open; two appends per epoch over two epochs'),
@@ -72,12 +72,12 @@ checks["C02"] = dict(
 
 checks["C03"] = dict(
     runs=dict(
-        quick=[H("HarnessCrash", crash(2, 1, seg=64, armopen=1, opset=1), shards=14, depth=10),
-               H("HarnessCrash", crash(1, 1, pre=1, seg=128, armopen=1, opset=4), shards=6, depth=10)],
-        thorough=[H("HarnessCrash", crash(2, 1, seg=64, armopen=1), shards=42, depth=10, timeout="40m"),
-                  H("HarnessCrash", crash(2, 1, seg=100, armopen=1), shards=42, depth=10, timeout="40m"),
-                  H("HarnessCrash", crash(1, 2, armopen=1, opset=3, seg=64), shards=56, depth=10, timeout="60m"),
-                  H("HarnessCrash", crash(1, 2, opset=1, crashkind=1, armopen=1), shards=42, depth=10, timeout="40m")]),
+        quick=[H("HarnessCrash", crash(2, 1, seg=64, armopen=1, opset=1), shards=14, depth=8),
+               H("HarnessCrash", crash(1, 1, pre=1, seg=128, armopen=1, opset=4), shards=6, depth=8)],
+        thorough=[H("HarnessCrash", crash(2, 1, seg=64, armopen=1), shards=42, depth=8, timeout="40m"),
+                  H("HarnessCrash", crash(2, 1, seg=100, armopen=1), shards=42, depth=8, timeout="40m"),
+                  H("HarnessCrash", crash(1, 2, armopen=1, opset=3, seg=64), shards=56, depth=8, timeout="60m"),
+                  H("HarnessCrash", crash(1, 2, opset=1, crashkind=1, armopen=1), shards=42, depth=8, timeout="40m")]),
     required_reach=["crash-verified"],
     bounds=dict(quick="every crash point of a first-ever Open and of K=2 appends with one entry per segment (every append seals and rotates: all points between the sealing append and the rotation's metadata commit, rotation pending or run); a tail truncation (ForceSeal) with crash points inside Open; after each recovery: append at Last+1, stable Set, head truncation, no-op truncation, close and reopen must succeed and be reflected",
                 thorough='adds DeleteRange and batches of two, 2 entries per segment, a crash inside recovery (two epochs), process crash + power loss with crash points inside Open'),
@@ -88,13 +88,13 @@ checks["C03"] = dict(
 
 checks["C04"] = dict(
     runs=dict(
-        quick=[H("HarnessCrash", crash(1, 1, pre=3, seg=64, opset=4), shards=14, depth=10),
-               H("HarnessCrash", crash(1, 1, pre=2, seg=128, opset=4), shards=4, depth=10),
-               H("HarnessCrash", crash(2, 1, pre=1, seg=128, script=31), shards=14, depth=10)],
-        thorough=[H("HarnessCrash", crash(2, 1, pre=3, seg=64, opset=5), shards=42, depth=10, timeout="40m"),
-                  H("HarnessCrash", crash(2, 1, pre=2, seg=100, script=31), shards=28, depth=10, timeout="40m"),
-                  H("HarnessCrash", crash(2, 1, pre=2, seg=128, opset=5), shards=42, depth=10, timeout="40m"),
-                  H("HarnessCrash", crash(3, 1, pre=2, seg=100, opset=5), shards=56, depth=10, timeout="60m")]),
+        quick=[H("HarnessCrash", crash(1, 1, pre=3, seg=64, opset=4), shards=14, depth=8),
+               H("HarnessCrash", crash(1, 1, pre=2, seg=128, opset=4), shards=4, depth=8),
+               H("HarnessCrash", crash(2, 1, pre=1, seg=128, script=31), shards=14, depth=8)],
+        thorough=[H("HarnessCrash", crash(2, 1, pre=3, seg=64, opset=5), shards=42, depth=8, timeout="40m"),
+                  H("HarnessCrash", crash(2, 1, pre=2, seg=100, script=31), shards=28, depth=8, timeout="40m"),
+                  H("HarnessCrash", crash(2, 1, pre=2, seg=128, opset=5), shards=42, depth=8, timeout="40m"),
+                  H("HarnessCrash", crash(3, 1, pre=2, seg=100, opset=5), shards=56, depth=8, timeout="60m")]),
     required_reach=["crash-verified", "delete", "recovered-post", "recovered-pre"],
     bounds=dict(quick="DeleteRange(min,max) with both bounds 64-bit symbolic on a 3-segment log (one entry per segment) and on a tail holding 2 unsealed entries (truncation inside the live tail: ForceSeal), crash at any modifying call inside it; the script 'tail truncation then append' with crash points in both (re-appended entries carry fresh symbolic contents)",
                 thorough='two free operations from {append, DeleteRange} after 3- and 2-segment logs, three operations on a 2-entry log'),
@@ -105,11 +105,11 @@ checks["C04"] = dict(
 
 checks["C13"] = dict(
     runs=dict(
-        quick=[H("HarnessCrash", crash(1, 1, pre=3, seg=64, opset=4), shards=14, depth=10),
-               H("HarnessCrash", crash(2, 1, seg=64, script=13), shards=14, depth=10),
+        quick=[H("HarnessCrash", crash(1, 1, pre=3, seg=64, opset=4), shards=14, depth=8),
+               H("HarnessCrash", crash(2, 1, seg=64, script=13), shards=14, depth=8),
                H("HarnessSeq", {"K": 2, "bmax": 100, "seg": 64, "c13": 1}, shards=4, depth=4)],
-        thorough=[H("HarnessCrash", crash(2, 1, pre=3, seg=64, opset=5), shards=42, depth=10, timeout="40m"),
-                  H("HarnessCrash", crash(1, 2, seg=64, opset=5, armopen=1), shards=56, depth=10, timeout="60m"),
+        thorough=[H("HarnessCrash", crash(2, 1, pre=3, seg=64, opset=5), shards=42, depth=8, timeout="40m"),
+                  H("HarnessCrash", crash(1, 2, seg=64, opset=5, armopen=1), shards=56, depth=8, timeout="60m"),
                   H("HarnessSeq", {"K": 3, "bmax": 100, "seg": 64, "c13": 1}, shards=28, depth=5, timeout="30m")]),
     required_reach=["crash-verified", "c13-checked"],
     bounds=dict(quick="crash family: DeleteRange on a 3-segment log and 'append then DeleteRange' with one entry per segment, power loss at any modifying call, then Open: directory = exactly the live segments' files, IDs distinct and below NextSegmentID, Create never hit an existing name in any epoch; sequential family: K<=2 operations with one entry per segment, after every call the directory holds exactly the live files",
@@ -141,12 +141,12 @@ checks["C08"] = dict(
         quick=[H("HarnessStable"),
                H("HarnessStableBolt", {}, pkg="harness/hfs"),
                H("HarnessMetaRecord", {}, pkg="harness/hfs"),
-               H("HarnessCrash", crash(2, 1, opset=9), shards=16, depth=10)],
+               H("HarnessCrash", crash(2, 1, opset=9), shards=16, depth=8)],
         thorough=[H("HarnessStable"),
                   H("HarnessStableBolt", {}, pkg="harness/hfs"),
                   H("HarnessMetaRecord", {}, pkg="harness/hfs"),
-                  H("HarnessCrash", crash(3, 1, opset=9), shards=40, depth=10, timeout="30m"),
-                  H("HarnessCrash", crash(2, 1, opset=13, seg=64), shards=40, depth=10, timeout="30m")]),
+                  H("HarnessCrash", crash(3, 1, opset=9), shards=40, depth=8, timeout="30m"),
+                  H("HarnessCrash", crash(2, 1, opset=13, seg=64), shards=40, depth=8, timeout="30m")]),
     required_reach=["stable-checked", "stable-bolt-checked", "meta-record-checked", "stable-set", "crash-verified"],
     bounds=dict(quick="keys of 1..2 symbolic bytes, values of 6..9 symbolic bytes, uint64 values 64-bit symbolic; interleaved with a sealing append, a truncation and a reopen; crash family: K<=2 operations from {append, Set} then a power loss at any call - an acknowledged Set is read back after recovery",
                 thorough="K<=3 and DeleteRange in the alphabet"),
@@ -157,11 +157,11 @@ checks["C08"] = dict(
 
 checks["C10"] = dict(
     runs=dict(
-        quick=[H("HarnessFault", {"K": 2, "F": 1}, shards=14, depth=9)],
-        thorough=[H("HarnessFault", {"K": 2, "F": 1}, shards=28, depth=9),
-                  H("HarnessFault", {"K": 2, "F": 1, "seg": 64}, shards=28, depth=9, timeout="30m"),
-                  H("HarnessFault", {"K": 2, "F": 2}, shards=56, depth=9, timeout="40m"),
-                  H("HarnessFault", {"K": 2, "F": 1, "sticky": 1}, shards=28, depth=9, timeout="30m")]),
+        quick=[H("HarnessFault", {"K": 2, "F": 1}, shards=14, depth=7)],
+        thorough=[H("HarnessFault", {"K": 2, "F": 1}, shards=28, depth=7),
+                  H("HarnessFault", {"K": 2, "F": 1, "seg": 64}, shards=28, depth=7, timeout="30m"),
+                  H("HarnessFault", {"K": 2, "F": 2}, shards=56, depth=7, timeout="40m"),
+                  H("HarnessFault", {"K": 2, "F": 1, "sticky": 1}, shards=28, depth=7, timeout="30m")]),
     required_reach=["fault-checked", "append-failed", "append-acked", "delete-failed"],
     bounds=dict(quick="K<=2 operations from {append 1-2 entries, DeleteRange(min,max)}, one injected failure at any VFS/MetaStore call (a failing WriteAt applies any subset of its 8-byte chunks), then clean reopen",
                 thorough="adds one entry per segment, two failures, persistent (sticky) failures"),
